@@ -217,9 +217,12 @@ func childMain(args []string) {
 			shared := g%2 == 0 // even goroutines use the process-wide BaseWorkUnit, odd ones a private StatusFileData
 			priv := &workceptor.StatusFileData{}
 			steady := &workceptor.StatusFileData{} // a reporter that repeats one and the same report
-			myIncs, lastC, blinds, loads, saves := 0, 0, 0, 0, 0
+			myIncs, lastC, blinds, loads, saves, others := 0, 0, 0, 0, 0, 0
 			// check what a read (inside an update or a Load) returned
 			check := func(where string, ed any) {
+				if *mode == "clear" {
+					return // the field is set and cleared on purpose; the trace oracle decides
+				}
 				m, _ := ed.(map[string]any)
 				if m == nil && *mode == "fresh" && where == "update" && myIncs == 0 {
 					return // possibly the very first update of the file
@@ -259,6 +262,38 @@ func childMain(args []string) {
 					r = 40 // everybody's first operation is a counting update
 				}
 				switch {
+				case *mode == "clear" && r < 45:
+					// mode "clear": writers with long-lived objects; some updates SET the ExtraData field, some CLEAR it (nil),
+					// interleaved with the single-field (State/Detail) updates and loads of the others.  Every re-read must
+					// replace the whole in-memory copy - the trace oracle compares each read with the last write.
+					var f func(*workceptor.StatusFileData)
+					if r < 25 {
+						v := fmt.Sprintf("%s#%d", key, k)
+						f = func(s *workceptor.StatusFileData) { s.ExtraData = map[string]any{"v": v} }
+					} else {
+						f = func(s *workceptor.StatusFileData) { s.ExtraData = nil }
+					}
+					if shared {
+						bwu.UpdateFullStatus(f)
+						if e := bwu.LastUpdateError(); e != nil {
+							problem("C14:torn-read", fmt.Sprintf("%s: UpdateFullStatus failed: %v", key, e))
+
+							break
+						}
+					} else if e := priv.UpdateFullStatus(statusFile, f); e != nil {
+						problem("C14:torn-read", fmt.Sprintf("%s: UpdateFullStatus failed: %v", key, e))
+
+						break
+					}
+					others++
+				case *mode == "clear" && r < 50:
+					// (no counting updates in this mode) a Load into the long-lived object
+					if !shared {
+						if e := priv.Load(statusFile); e != nil {
+							problem("C14:torn-load", fmt.Sprintf("%s: Load failed: %v", key, e))
+						}
+						loads++
+					}
 				case *mode == "save" && r < 30:
 					// blind rewrite of the caller's in-memory copy (what AllocateUnit does)
 					var err error
@@ -336,7 +371,7 @@ func childMain(args []string) {
 			}
 			mu.Lock()
 			res.Incs[key] = myIncs
-			res.Updates += myIncs + blinds
+			res.Updates += myIncs + blinds + others
 			res.Blinds += blinds
 			res.Loads += loads
 			res.Saves += saves
